@@ -352,8 +352,25 @@ class Gen(kgen.Gen):
     def hex_malformed(self):
         s = self.st(); r = self.r
         lv, le, lf, lc = s.live_v(), s.live_e(), s.live_f(), s.live_c()
-        c = r.below(11)
-        if c == 10:
+        c = r.below(12)
+        if c == 11:
+            # six quads on eight fresh vertices that surround top and bottom in the right order although top (0,1,2,3) and bottom
+            # (0,4,2,5) SHARE two vertices (in every side face the edges to top and bottom are adjacent, not opposite): a closed
+            # surface, eight distinct vertices, no hexahedron - the topology-checked add_cell must reject it (fix "hex halfface
+            # ordering check must require vertex-disjoint top and bottom faces"); vertices relabelled, faces rotated, list rotated
+            base = s.nv
+            self.add_vertices(8)
+            lab = r.shuffle(list(range(8)))
+            quads = [(0, 1, 2, 3), (0, 4, 2, 5), (1, 0, 5, 6), (3, 2, 4, 7), (5, 2, 1, 6), (4, 0, 3, 7)]
+            hfs = []
+            for q in quads:
+                k = r.below(4)
+                f = self.do("@AddFV " + " ".join(str(base + lab[q[(i + k) % 4]]) for i in range(4))).result()
+                if not isinstance(f, int): return
+                hfs.append(2 * f)
+            if r.chance(1, 3): hfs = [hfs[0], hfs[1]] + r.shuffle(hfs[2:])       # the re-ordering path
+            self.do("@AddC %d %s" % (1 if r.chance(4, 5) else 0, " ".join(map(str, hfs))))
+        elif c == 10:
             # a cube on fresh vertices with one vertex named twice (a cell pinched in a vertex; the antipodal pair keeps the
             # surface closed), mostly WITH topology check: must be rejected before any face is created (fix "checked hex
             # add_cell must reject cells without eight distinct vertices")
